@@ -155,6 +155,27 @@ func registerCrypto(p *Program) {
 			e.raise(g, IfaceV{T: types.Typ[types.String], V: concStr("chacha20poly1305: bad nonce length passed to Seal")}, "bad nonce length passed to Seal", false)
 			return panicked{}
 		}
+		if st.havoc {
+			// length-only model: ciphertext and tag are arbitrary bytes, lengths stay symbolic
+			tc := e.tc
+			n := tc.Bin(OAdd, pt.Len, tc.Const(64, 16))
+			dl, dc := dst.Len, dst.Cap
+			if dst.IsNil() {
+				dl, dc = tc.Const(64, 0), tc.Const(64, 0)
+			}
+			total := tc.Bin(OAdd, dl, n)
+			if !dst.IsNil() && e.branch(tc.Cmp(OULE, total, dc), "seal-fits") {
+				e.arrHavoc(dst.A, tc.Bin(OAdd, dst.Off, dl), n, "ct")
+				return SliceV{A: dst.A, Elem: dst.Elem, Off: dst.Off, Len: total, Cap: dst.Cap}
+			}
+			nn := int(e.concretize(total, "seal result length"))
+			ns := e.makeSlice(types.Typ[types.Byte], tc.Const(64, uint64(nn)), nn)
+			if !dst.IsNil() {
+				e.builtinCopy(ns, dst)
+			}
+			e.arrHavoc(ns.A, dl, n, "ct")
+			return ns
+		}
 		ptT := e.sliceTerms(pt) // concretises the plaintext length
 		ct := make([]*Term, len(ptT)+16)
 		for i := range ct {
